@@ -723,6 +723,7 @@ func randomSequences(r *vk.Run) {
 					}
 				}
 				o.ExpectCheck = rng.Chance(1, 6)
+				o.PlainCheckErr = o.ExpectCheck && rng.Chance(1, 3)
 				if rng.Chance(1, 5) {
 					o.WriteTime = ptime(int64(s))
 				}
